@@ -44,6 +44,8 @@ MUT = {
  "m41": ("internal/pfcp/pfcp.go", "\tREPORT_CHANNEL_LEN        = 128", "\tREPORT_CHANNEL_LEN        = 16"),
  "m42": ("internal/forwarder/perio/server.go", "\tEVENT_CHANNEL_LEN = 512", "\tEVENT_CHANNEL_LEN = 64"),
  "m44": ("internal/forwarder/gtp5g.go", "\toid := gtp5gnl.OID{lSeid, uint64(v)}\n\treturn gtp5gnl.RemoveQEROID(g.client, g.link.link, oid)", "\toid := gtp5gnl.OID{lSeid, uint64(v)}\n\t_ = oid\n\treturn nil"),
+ "m45": ("internal/forwarder/gtp5g.go", "\t\t\t\toids = oids[:0]\n\t\t\t\tqueryNum = 0", "\t\t\t\tqueryNum = 0"),
+ "m46": ("internal/forwarder/gtp5g.go", "\t\t\tif queryNum >= queryNumOnce {", "\t\t\tif queryNum > queryNumOnce {"),
  "m43": ("internal/pfcp/pfcp.go", "\tselect {\n\tcase s.trToCh <- TransactionTimeout{TrType: trType, TrID: trID}:\n\tcase <-s.done:\n\t}", "\ts.trToCh <- TransactionTimeout{TrType: trType, TrID: trID}"),
 }
 name = sys.argv[1]
